@@ -44,13 +44,31 @@ def get_function(key):
 
 
 class _Rewrite(ast.NodeTransformer):
-    def __init__(self, olds):
+    def __init__(self, olds, lazy=None):
         self.olds = olds
+        self.lazy = lazy if lazy is not None else []   # old() under a quantifier: evaluated in an entry snapshot
+        self.bound = []
+
+    def visit_Lambda(self, node):
+        names = [a.arg for a in node.args.args]
+        self.bound.extend(names)
+        node = self.generic_visit(node)
+        del self.bound[len(self.bound) - len(names):]
+        return node
 
     def visit_Call(self, node):
         if isinstance(node.func, ast.Name):
             n = node.func.id
             if n == 'old':
+                free = sorted({x.id for x in ast.walk(node.args[0]) if isinstance(x, ast.Name)} & set(self.bound))
+                if free:
+                    k = len(self.lazy)
+                    self.lazy.append(node.args[0])
+                    return ast.Call(func=ast.Name(id='__oldf', ctx=ast.Load()),
+                                    args=[ast.Constant(k),
+                                          ast.Dict(keys=[ast.Constant(v) for v in free],
+                                                   values=[ast.Name(id=v, ctx=ast.Load()) for v in free])],
+                                    keywords=[])
                 k = len(self.olds)
                 self.olds.append(node.args[0])
                 return ast.Subscript(value=ast.Name(id='__old', ctx=ast.Load()),
@@ -68,8 +86,10 @@ class _Rewrite(ast.NodeTransformer):
                 return ast.IfExp(test=c, body=a, orelse=b)
             if n in ('forall', 'exists'):
                 lam = node.args[-1]
-                body = self.visit(lam.body)
                 var = lam.args.args[0].arg
+                self.bound.append(var)
+                body = self.visit(lam.body)
+                self.bound.pop()
                 if len(node.args) == 3:
                     lo, hi = self.visit(node.args[0]), self.visit(node.args[1])
                     it = ast.Call(func=ast.Name(id='range', ctx=ast.Load()), args=[lo, hi], keywords=[])
@@ -113,6 +133,12 @@ HELPERS = {
     'same_str': lambda a, b: a == b,
     'fresh': lambda x: True,
     'allocated': lambda x: True,
+    'same': lambda a, b: a is b or (type(a) is type(b) and a == b),
+    'owned': lambda *a: True,
+    'has': lambda m, k: k in m,
+    'at': lambda m, k: m[k],
+    'mget': lambda m, k: m.get(k),
+    'forall_keys': lambda m, f: all(f(k) for k in m),
     'kind_is': lambda v, k: {'none': v is None, 'int': isinstance(v, int), 'str': isinstance(v, str),
                              'ref': hasattr(v, '__slots__') or hasattr(v, '__dict__'),
                              'list': isinstance(v, list), 'tuple': isinstance(v, tuple),
@@ -124,8 +150,9 @@ class Clause:
     def __init__(self, text):
         self.text = text
         self.olds = []
+        self.lazy = []
         tree = ast.parse(text.strip(), mode='eval')
-        tree.body = _Rewrite(self.olds).visit(tree.body)
+        tree.body = _Rewrite(self.olds, self.lazy).visit(tree.body)
         ast.fix_missing_locations(tree)
         self.code = compile(tree, '<contract>', 'eval')
         self.old_codes = []
@@ -135,8 +162,46 @@ class Clause:
             ast.fix_missing_locations(e)
             self.old_codes.append(compile(e, '<old>', 'eval'))
 
+        self.lazy_codes = []
+        for o in self.lazy:
+            e = ast.Expression(body=_Rewrite([]).visit(copy.deepcopy(o)))
+            ast.fix_missing_locations(e)
+            self.lazy_codes.append(compile(e, '<old>', 'eval'))
+
+    def snapshot(self, env):
+        """entry snapshot for old() under a quantifier: a deep copy of the data reachable from the
+        environment; a result that is a copied object is mapped back to its original (the identity of
+        an object does not change over a call, only its fields do)"""
+        memo = {}
+        snap = {}
+        for k, v in env.items():
+            if callable(v) or isinstance(v, type(ast)) or k.startswith('__'):
+                snap[k] = v
+            else:
+                try:
+                    snap[k] = copy.deepcopy(v, memo)
+                except Exception:
+                    snap[k] = v
+        back = {}
+        for o in memo.get(id(memo), []):
+            cp = memo.get(id(o))
+            if cp is not None and cp is not o:
+                back[id(cp)] = o
+        codes = self.lazy_codes
+
+        def oldf(k, bound):
+            e = dict(snap)
+            e.update(bound)
+            v = eval(codes[k], e)
+            return back.get(id(v), v)
+        return oldf
+
     def capture(self, env):
         out = []
+        if self.lazy_codes:
+            out.append(self.snapshot(env))
+        else:
+            out.append(None)
         for c in self.old_codes:
             try:
                 v = eval(c, env)
@@ -147,7 +212,9 @@ class Clause:
 
     def eval(self, env, olds=None):
         env = dict(env)
-        env['__old'] = olds or []
+        olds = olds or [None]
+        env['__oldf'] = olds[0]
+        env['__old'] = olds[1:]
         return eval(self.code, env)
 
 
@@ -220,7 +287,10 @@ def call_checked(key, args, callback_log=None):
                 return {'status': 'pre-false', 'clause': r}
         except Exception as e:
             return {'status': 'pre-false', 'clause': r, 'detail': repr(e)}
-    olds = {e: clause(e).capture(env) for e in c.ensures + c.ensures_on_raise}
+    try:
+        olds = {e: clause(e).capture(env) for e in c.ensures + c.ensures_on_raise}
+    except Exception as e:
+        return {'status': 'clause-error', 'kind': 'post', 'clause': '*', 'detail': 'clause not executable: %r' % e}
     # callback parameters: wrap so that the callback contract is checked at every invocation
     call_args = dict(args)
     cb_fail = []
@@ -260,7 +330,7 @@ def call_checked(key, args, callback_log=None):
                 try:
                     ok = clause(en).eval(env2, olds[en])
                 except Exception as e2:
-                    ok = False
+                    return {'status': 'clause-error', 'kind': 'post-raise', 'clause': en, 'detail': 'clause raised %r' % e2}
                 if not ok:
                     return {'status': 'violation', 'kind': 'post-raise', 'clause': en, 'detail': repr(e)}
             return {'status': 'ok', 'raised': name}
@@ -275,7 +345,8 @@ def call_checked(key, args, callback_log=None):
         try:
             ok = clause(en).eval(env2, olds[en])
         except Exception as e:
-            return {'status': 'violation', 'kind': 'post', 'clause': en, 'detail': 'clause raised %r' % e}
+            # a clause that cannot be evaluated at run time (spec-only vocabulary) decides nothing
+            return {'status': 'clause-error', 'kind': 'post', 'clause': en, 'detail': 'clause raised %r' % e}
         if not ok:
             return {'status': 'violation', 'kind': 'post', 'clause': en, 'detail': 'result=%r' % (result,)}
     return {'status': 'ok', 'result': repr(result)[:200]}
